@@ -12,6 +12,8 @@ inductive FV where
   | str (s : Bytes)
   | int (i : Int)
   | flt (n8 : Int)      -- the float n8 / 8
+  /-- a float that no narrower IEEE format represents exactly, given by its binary64 bits -/
+  | f64 (bits : Nat)
   | bool (b : Bool)
   | arrStr (l : List Bytes)   -- [String!]
   | arrInt (l : List Int)     -- [Int!]
@@ -55,6 +57,7 @@ def encVal : FV → Bytes
   | .str s => head 3 s.length ++ s
   | .int i => if i ≥ 0 then head 0 i.toNat else head 1 (-1 - i).toNat
   | .flt n => 0xf9 :: beN 2 (half n)
+  | .f64 bits => 0xfb :: beN 8 bits
   | .bool b => [if b then 0xf5 else 0xf4]
   | .arrStr l => head 4 l.length ++ l.flatMap (fun s => head 3 s.length ++ s)
   | .arrInt l => head 4 l.length ++ l.flatMap (fun i => if i ≥ 0 then head 0 i.toNat else head 1 (-1 - i).toNat)
